@@ -273,9 +273,46 @@ def run(ctx):
     traces = list(traces_b)
     for _ in range(250 if ctx.quick else 3000):
         traces.append(_project(rnd, rnd.randint(1, 40), rnd.choice([1, 2, 2, 3])))
+    msg = big_encoding(ctx)
+    if msg:
+        ctx.violation(msg, {"kind": "big-encoding"})
     _decide(ctx, traces)
     ctx.assumptions += ["NaN/inf doses and supplied mappings with duplicate keys are outside the quantifier",
                         "name order is Python code-point order (what pandas/numpy use for str/object arrays)"]
+
+
+def big_encoding(ctx):
+    """C01 at study size (tens of thousands of distinct conditions, samples, plates; TLC validates the small ones): the clauses evaluated
+    in the harness - ids decode through the mapping, non-control ids are the dense range, control exactly for the control name or a
+    non-positive dose, the experiment-space sizes bound every id"""
+    nd, ndose = (220, 160) if ctx.quick else (300, 200)
+    names = np.array(["drug%03d" % (i // ndose) for i in range(nd * ndose)] + ["ctl", "drug000"], dtype=str).reshape(-1, 1)
+    doses = np.array([0.5 + (i % ndose) for i in range(nd * ndose)] + [1.0, 0.0], dtype=float).reshape(-1, 1)
+    n = len(names)
+    sn = np.array(["s%05d" % (i % 40000) for i in range(n)], dtype=str)
+    pn = np.array(["p%05d" % (i % 33000) for i in range(n)], dtype=str)
+    st, scr = _screen(names, doses, sn, pn, "ctl")
+    ctx.evaluations += 1
+    if st != "ok":
+        return "Screen(...) of %d experiments raised %s" % (n, scr)
+    tm = {int(c): (str(a), float(b)) for a, b, c in zip(*scr.treatment_mapping)}
+    ids = scr.treatment_ids[:, 0].astype(int)
+    for i in (0, 1, n // 2, 32767, 32768, 32769, n - 3, n - 2, n - 1):
+        want_ctl = names[i, 0] == "ctl" or doses[i, 0] <= 0
+        if (ids[i] == -1) != want_ctl or (not want_ctl and tm.get(int(ids[i])) != (str(names[i, 0]), float(doses[i, 0]))):
+            return "screen of %d conditions: experiment %d (%s, %g) has treatment id %d, which the mapping decodes as %s" % (
+                nd * ndose, i, names[i, 0], doses[i, 0], ids[i], tm.get(int(ids[i])))
+    non = sorted(set(ids.tolist()) - {-1})
+    sp = ExperimentSpace.from_screen(scr)
+    if non != list(range(len(non))) or len(non) != nd * ndose or int(sp.n_unique_treatments) != len(non):
+        return "screen of %d conditions: non-control treatment ids are not the dense range 0..%d (min %d, max %d, %d distinct; n_unique_treatments %d)" % (
+            nd * ndose, nd * ndose - 1, non[0], non[-1], len(non), int(sp.n_unique_treatments))
+    for what, arr, names_, nuniq in (("sample", scr.sample_ids, sn, int(sp.n_unique_samples)), ("plate", scr.plate_ids, pn, None)):
+        a = np.asarray(arr).astype(int)
+        k = len(set(names_.tolist()))
+        if sorted(set(a.tolist())) != list(range(k)) or len({(x, y) for x, y in zip(a.tolist(), names_.tolist())}) != k or (nuniq is not None and a.max() >= nuniq):
+            return "screen with %d %ss: %s ids are not a one-to-one dense encoding of the names (min %d, max %d, %d distinct)" % (k, what, what, a.min(), a.max(), len(set(a.tolist())))
+    return None
 
 
 def _decide(ctx, traces):
@@ -312,4 +349,9 @@ def _decide(ctx, traces):
 
 
 def replay(ctx, rp):
+    if rp.get("kind") == "big-encoding":
+        msg = big_encoding(ctx)
+        if msg:
+            ctx.violation(msg, rp)
+        return
     _decide(ctx, [rp["trace"]])
